@@ -282,8 +282,12 @@ func (p *printer) expr1(e *Expr) {
 		}
 		p.sp("")
 		k := e.Kids[0]
-		if k.K == KAction {
-			// "&{" would read as a semantic predicate
+		left := k
+		for left.K == KQuery || left.K == KStar || left.K == KPlus {
+			left = left.Kids[0]
+		}
+		if left.K == KAction {
+			// "&{" would read as a semantic predicate (also for &{...}? etc.)
 			p.sb.WriteString("(")
 			p.expr1(k)
 			p.sb.WriteString(")")
